@@ -150,6 +150,36 @@ func (x *Exec) flushTop(st *State) {
 	x.pendingTop = nil
 }
 
+// ---- deterministic contracts: results as functions of (world, arguments) ----
+
+func worldOf(h map[string]*Term) *Term {
+	return Select(heapArr(h, "G|world", ArrayS(IntS, IntS)), IntLit(0))
+}
+
+// detArgs flattens receiver and arguments to scalar terms (slices by header, interfaces by tag and payload).
+func detArgs(sig *types.Signature, all []Value) []*Term {
+	var out []*Term
+	i := 0
+	if sig.Recv() != nil {
+		out = append(out, toComps(sig.Recv().Type(), all[0])...)
+		i = 1
+	}
+	for j := 0; j < sig.Params().Len(); j++ {
+		out = append(out, toComps(sig.Params().At(j).Type(), all[i+j])...)
+	}
+	return out
+}
+
+func detResult(key string, j int, rt types.Type, w0 *Term, args []*Term) Value {
+	cs := comps(rt)
+	ts := make([]*Term, len(cs))
+	for i, c := range cs {
+		ts[i] = App(fmt.Sprintf("det|%s|%d%s", calleeShort(key), j, c.suffix), c.sort, append([]*Term{w0}, args...)...)
+	}
+	v, _ := fromComps(rt, ts)
+	return v
+}
+
 func calleeShort(key string) string {
 	s := strings.TrimPrefix(key, modPath+"/")
 	s = strings.TrimPrefix(s, modPath+".")
@@ -250,6 +280,20 @@ func (x *Exec) applyContract(fr *Frame, st *State, c *Contract, sig *types.Signa
 	rets := make([]Value, sig.Results().Len())
 	for j := 0; j < sig.Results().Len(); j++ {
 		rets[j] = st.fresh(sig.Results().At(j).Type(), "ret|"+c.Name)
+	}
+	if c.Determ {
+		// results (and the new world) are functions of the old world and the arguments
+		w0 := worldOf(pre)
+		argc := detArgs(sig, all)
+		for j := 0; j < sig.Results().Len(); j++ {
+			rt := sig.Results().At(j).Type()
+			dv := detResult(c.Key, j, rt, w0, argc)
+			st.assume(valEq(tv{rets[j], rt}, tv{dv, rt}))
+		}
+		if !c.Pure {
+			wa := st.arr("G|world", ArrayS(IntS, IntS))
+			st.setArr("G|world", Store(wa, IntLit(0), App("det|"+calleeShort(c.Key)+"|world", IntS, append([]*Term{w0}, argc...)...)))
+		}
 	}
 	env.old, env.oldTop = pre, preTop
 	x.bindResults(env, c, sig, rets)
@@ -585,6 +629,26 @@ func (x *Exec) loopWrites(fr *Frame, st *State, body map[*ssa.BasicBlock]bool) (
 	return cells, arrays
 }
 
+// localOnly: an Alloc whose address never escapes the instructions that read/write it directly
+// (a plain local variable of a loop body or callback). Its cell is dead outside one iteration.
+func localOnly(a *ssa.Alloc) bool {
+	if a.Referrers() == nil {
+		return false
+	}
+	for _, r := range *a.Referrers() {
+		switch n := r.(type) {
+		case *ssa.UnOp, *ssa.DebugRef:
+		case *ssa.Store:
+			if n.Val == ssa.Value(a) {
+				return false
+			}
+		default:
+			return false
+		}
+	}
+	return true
+}
+
 // knownPtr: the address held by a captured variable or an escaping local of this frame.
 func (x *Exec) knownPtr(fr *Frame, v ssa.Value) (*Term, bool) {
 	switch a := v.(type) {
@@ -655,6 +719,9 @@ func (x *Exec) loopWrites2(fr *Frame, st *State, body map[*ssa.BasicBlock]bool) 
 					continue
 				}
 				pt := n.Addr.Type().Underlying().(*types.Pointer).Elem()
+				if al, ok := n.Addr.(*ssa.Alloc); ok && body[al.Block()] && localOnly(al) {
+					continue // a variable local to one iteration
+				}
 				if addr, ok := x.knownPtr(fr, n.Addr); ok && !isPlainStruct(pt) {
 					for _, c := range comps(pt) {
 						points = append(points, locRef{ptrArrName(pt, c.suffix), ArrayS(IntS, c.sort), addr})
@@ -691,7 +758,7 @@ func (x *Exec) loopWrites2(fr *Frame, st *State, body map[*ssa.BasicBlock]bool) 
 				el := n.Type().Underlying().(*types.Slice).Elem()
 				addType(func(sfx string) string { return elemArrName(el, sfx) }, el, true)
 			case *ssa.Alloc:
-				if n.Heap {
+				if n.Heap && !localOnly(n) {
 					t := n.Type().(*types.Pointer).Elem()
 					switch {
 					case isPlainStruct(t):
